@@ -50,15 +50,17 @@ def check(diff, pids):
     finally:
         sh("git -C /repo checkout -- .")
     return res
-def checkwt(diff, pids, wt="/tmp/mutchk"):
+def checkwt(diff, pids, wt=None):
     """Same verdicts without touching /repo: the diff is applied in a scratch worktree and the checks are pointed at it (VERIF_REPO);
     work files and evidence of such a run go to /verif/.work-alt, never to /verif/evidence."""
+    tag = os.environ.get("MUT_TAG", "")          # several of these can run side by side, each with its own worktree and work directory
+    wt = wt or "/tmp/mutchk" + tag
     sh("git -C /repo worktree remove --force %s" % wt); sh("git -C /repo worktree add -q --detach %s HEAD" % wt)
     res = {}
     try:
         rc, out = sh("git apply %s" % diff, cwd=wt)
         if rc != 0: print("patch does not apply:", out[-300:]); return
-        env = dict(ENV, VERIF_REPO=wt)
+        env = dict(ENV, VERIF_REPO=wt, VERIF_WORK=".work-alt" + tag)
         for pid in pids:
             p = subprocess.run("./check %s quick" % pid, shell=True, cwd="/verif", env=env, capture_output=True, text=True, timeout=3000); rc, out = p.returncode, p.stdout + p.stderr
             v = [l for l in out.splitlines() if l.startswith("VIOLATION") or l.startswith("KNOWN-FINDING")]
